@@ -5,13 +5,42 @@ import vlib
 FEATS = ["std", "serde", "decode", "bit-vec", "schema", "docs"]
 QUICK = [[], ["std"], ["std", "serde", "decode", "bit-vec", "schema", "docs"], ["serde", "decode"], ["docs"], ["std", "docs", "bit-vec"], ["bit-vec"], ["schema"]]
 
+CORPUS_DIR = None
+
+def write_corpus(c, n):
+    """a large corpus of built-in type expressions, enumerated by TLC (specs/MC_TypeExpr.tla), as Rust source"""
+    global CORPUS_DIR
+    import sys
+    sys.path.insert(0, vlib.VERIF)
+    from gen import texpr as G
+    from checks import texprcommon as T
+    cases = T.corpus(c, False, False)
+    exprs, seen = [], set()
+    for cs in cases:
+        e = cs["e"]
+        # BitVec belongs to the bit-vec sub-lattice only (fp has its own sub-corpus for it)
+        if G.has(e, {"BitVec", "Lsb0", "Msb0"}) or G.key(e) in seen: continue
+        seen.add(G.key(e)); exprs.append(e)
+    step = max(1, len(exprs) // n)
+    exprs = exprs[::step][:n]
+    CORPUS_DIR = os.path.join(c.wd, "fpcorpus"); os.makedirs(CORPUS_DIR, exist_ok=True)
+    with open(os.path.join(CORPUS_DIR, "gen_corpus.rs"), "w") as f:
+        f.write("fn gen_corpus() -> Vec<MetaType> {\n    vec![\n")
+        for e in exprs:
+            f.write("        meta_type::<%s>(),\n" % G.rust(e))
+        f.write("    ]\n}\n")
+    return len(exprs)
+
 def build_and_run(cfgset):
     td = os.path.join(vlib.HARNESS, "target-fp" + ("-" + vlib.ALT if vlib.ALT else ""))
     cmd = ["cargo", "build", "--offline", "-q", "-p", "fp", "--no-default-features", "--target-dir", td]
     if vlib.ALT: cmd += ["--config", 'paths=["%s"]' % vlib.ALT_REPO]
     if cfgset: cmd += ["--features", ",".join(cfgset)]
     with vlib.Lock("cargo-fp"):
-        p = vlib.run(cmd, cwd=vlib.HARNESS, env={"CARGO_NET_OFFLINE": "true", "RUSTFLAGS": "-Awarnings"})
+        env = {"CARGO_NET_OFFLINE": "true", "RUSTFLAGS": "-Awarnings"}
+        if CORPUS_DIR:
+            env = {"CARGO_NET_OFFLINE": "true", "RUSTFLAGS": "-Awarnings --cfg fp_corpus", "FP_CORPUS_DIR": CORPUS_DIR}
+        p = vlib.run(cmd, cwd=vlib.HARNESS, env=env)
         if p.returncode != 0:
             return None, p.stderr[-3000:]
         r = vlib.run([os.path.join(td, "debug", "fp")])
@@ -30,6 +59,8 @@ def run(tier, replay=None):
         if not ok: c.violation("replay", "fingerprints disagree", replay)
         return c.finish()
     thorough = tier == "thorough"
+    ncorpus = write_corpus(c, 600 if thorough else 250)
+    c.cov["generated_corpus_expressions"] = ncorpus
     # the configuration space is the specification's: TLC enumerates SUBSET Feats
     g = vlib.tlc("Features", "Gen_Features.cfg", wd, workers=1)
     allcfg = g.lines("CONFIGS")
